@@ -78,7 +78,7 @@ func StartPool(extra ...string) (*PoolProc, error) {
 			return nil, err
 		}
 		go func() { p.err = p.cmd.Wait(); close(p.exited) }()
-		deadline := time.Now().Add(8 * time.Second)
+		deadline := time.Now().Add(120 * time.Second) // generous: the machine may be heavily loaded
 		for time.Now().Before(deadline) {
 			if !p.Alive() {
 				break
@@ -120,7 +120,7 @@ func (p *PoolProc) Stop() {
 	}
 }
 
-var httpClient = &http.Client{Timeout: 5 * time.Second}
+var httpClient = &http.Client{Timeout: 120 * time.Second}
 
 // Post sends one HTTP JSON-RPC request body; returns status, body.
 func (p *PoolProc) Post(body string) (int, string, error) {
@@ -138,7 +138,7 @@ type WS struct{ C *websocket.Conn }
 
 // DialWS opens a WebSocket connection.
 func (p *PoolProc) DialWS() (*WS, error) {
-	d := websocket.Dialer{HandshakeTimeout: 3 * time.Second}
+	d := websocket.Dialer{HandshakeTimeout: 60 * time.Second}
 	c, _, err := d.Dial("ws://"+p.Addr+"/", nil)
 	if err != nil {
 		return nil, err
@@ -148,7 +148,7 @@ func (p *PoolProc) DialWS() (*WS, error) {
 
 // Send writes one text frame.
 func (w *WS) Send(text string) error {
-	w.C.SetWriteDeadline(time.Now().Add(3 * time.Second))
+	w.C.SetWriteDeadline(time.Now().Add(60 * time.Second))
 	return w.C.WriteMessage(websocket.TextMessage, []byte(text))
 }
 
@@ -228,7 +228,7 @@ func NewHostConn(ws *WS) *HostConn {
 	h := &HostConn{WS: ws, Replies: make(chan string, 16)}
 	go func() {
 		for {
-			ws.C.SetReadDeadline(time.Now().Add(30 * time.Second))
+			ws.C.SetReadDeadline(time.Now().Add(10 * time.Minute))
 			_, b, err := ws.C.ReadMessage()
 			if err != nil {
 				close(h.Replies)
